@@ -625,7 +625,7 @@ class Pile(Widget, WidgetContainerMixin, WidgetContainerListContentsMixin):
 
         for idx, (widget, (size_kind, size_weight)) in enumerate(self.contents):
             w_sizing = widget.sizing()
-            focused = focus and self.focus == widget
+            focused = focus and self.focus_position == idx
             if size_kind == WHSettings.PACK:
                 if Sizing.FIXED in w_sizing:
                     widths[idx], heights[idx] = widget.pack((), focused)
@@ -724,7 +724,7 @@ class Pile(Widget, WidgetContainerMixin, WidgetContainerListContentsMixin):
                 warnings.warn(f"{w!r} is not a Widget", PileWarning, stacklevel=3)
                 w_sizing = frozenset((Sizing.FLOW, Sizing.BOX))
 
-            item_focus = focus and self.focus == w
+            item_focus = focus and self.focus_position == i
             widths.append(maxcol)
 
             if f == WHSettings.GIVEN:
@@ -782,7 +782,7 @@ class Pile(Widget, WidgetContainerMixin, WidgetContainerListContentsMixin):
                     warnings.warn(f"{w!r} is not a Widget", PileWarning, stacklevel=3)
                     w_sizing = frozenset((Sizing.FLOW, Sizing.BOX))
 
-                focused = focus and self.focus == w
+                focused = focus and self.focus_position == i
 
                 if f == WHSettings.GIVEN:
                     rows_numbers.append(height)
@@ -803,12 +803,12 @@ class Pile(Widget, WidgetContainerMixin, WidgetContainerListContentsMixin):
         # pile is a box widget
         # do an extra pass to calculate rows for each widget
         wtotal = 0
-        for w, (f, height) in self.contents:
+        for i, (w, (f, height)) in enumerate(self.contents):
             if f == WHSettings.PACK:
                 if Sizing.FLOW in w.sizing():
-                    rows = w.rows((maxcol,), focus=focus and self.focus == w)
+                    rows = w.rows((maxcol,), focus=focus and self.focus_position == i)
                 else:
-                    rows = w.pack((), focus and self.focus == w)[1]
+                    rows = w.pack((), focus and self.focus_position == i)[1]
                 rows_numbers.append(rows)
                 remaining -= rows
             elif f == WHSettings.GIVEN:
@@ -849,7 +849,8 @@ class Pile(Widget, WidgetContainerMixin, WidgetContainerListContentsMixin):
 
         combinelist = []
         for i, (height, w_size, (w, _)) in enumerate(zip(heights, size_args, self.contents)):
-            item_focus = self.focus == w
+            # the focus is a position: the same widget object may sit at several positions of one Pile
+            item_focus = self.focus_position == i
             canv = None
             if height > 0:
                 canv = w.render(w_size, focus=focus and item_focus)
@@ -1000,7 +1001,7 @@ class Pile(Widget, WidgetContainerMixin, WidgetContainerListContentsMixin):
             return False
 
         # the event is relative to what is drawn: tell the child the focus state it was rendered with
-        w_focus = focus and self.focus == w
+        w_focus = focus and self.focus_position == i
         if is_mouse_press(event) and button == 1 and w.selectable():
             self.focus_position = i
 
